@@ -85,10 +85,34 @@ def p5(ctx, rid):
         ctx.bad(rid, key, prog.fns[gl[0]].where(), 'the on-disk latest-version lookup no longer walks to the leftmost header of the key (newest first on disk): it answers with whichever version the binary search hit')
 
 
+def p6(ctx, rid):
+    """the file index returns every version of a key, exactly like the per-key vector of the in-memory index: the walks over the
+    leaf region (find_by_key, go_left, go_right, go_right_file) stop at a key change or at the end of the region only.  Cutting at
+    deletion markers is the job of the layer above (IndexStruct), which does it for both representations; a walk that stops at a
+    marker while moving towards newer versions hides records written after the deletion."""
+    prog = ctx.prog
+    n = 0
+    bad = 0
+    for f in prog.fns.values():
+        if not f.file.startswith('src/blob/index/bptree/'):
+            continue
+        if f.id == prog.fns[f.id].root:
+            n += 1
+        for c in f.calls:
+            if c.name == 'is_deleted' and c.bb in f.reachable():
+                bad += 1
+                ctx.bad(rid, 'walk-ignores-markers|%s' % prog.fns[f.id].root, c.where(), 'the on-disk index code looks at deletion markers: its version walks must return every header of the key (the in-memory index does) - stopping at a marker hides versions, in particular newer ones on the leftward walk')
+    if n < 10:
+        raise core.AnchorLost('functions in src/blob/index/bptree: %d' % n)
+    if not bad:
+        ctx.ok(rid, 'walk-ignores-markers|scan', '', '%d functions of the on-disk index, none inspects deletion markers' % n, queries=n)
+
+
 RULES = [
     Rule('C09.P1', 'keys are ordered through the key type, never as raw byte strings, in the index code (C04.T10 instances)', p1, 4),
     Rule('C09.P2', 'cursors over the on-disk leaf region move by whole record headers (C04.T12 instances)', p2, 4),
     Rule('C09.P3', 'the loaders return the record count stored in the index header (C15.A1 instances)', p3, 2),
     Rule('C09.P4', 'serializer, loader and all-versions search share the per-key order convention (newest first on disk)', p4, 1),
+    Rule('C09.P6', 'the on-disk index walks return every version of a key: no deletion-marker test in the b+tree code', p6, 1),
     Rule('C09.P5', 'the on-disk latest-version lookup takes the leftmost header of the key', p5, 1),
 ]
